@@ -14,7 +14,7 @@ EXPLANATION = (
     "argument-less leaf, once per argument inside args.retain), never on the Parent arm, whose result derives only from "
     "children.is_empty() after the recursive call; a leaf with arguments survives iff !args.is_empty(). R13.4 one "
     "naming function: the path pieces used for filtering, listing and painting all come from display_name() and the "
-    "same args vector. R13.5 run_action filters before listing, sorting and running.")
+    "same args vector. R13.5 run_action filters before listing, sorting and running. R13.2 also: SplitVec::all is the whole items slice, split_index the stored index, set_split_index stores its argument. R13.1 also: include/exclude/insert_filter store the filter on every path.")
 NOT_DECIDED = ["regular-expression semantics (regex-lite trusted)", "string equality of the two format! path builders beyond the shared accessor and '::' separator"]
 TRUSTED = ["regex_lite::Regex::is_match is an unanchored search"]
 
